@@ -1,11 +1,13 @@
 /-
   xotmodel — the model behind a one-request-per-line protocol.
   A malformed or unknown request is answered `bad-request`, never defaulted.
-  State carried between lines: the vocabulary (`vocab …`).
+  State carried between lines: the vocabulary (`vocab …`) and the `forest` session.
 -/
 import XotModel.Driver.Entity
 import XotModel.Driver.Tree
 import XotModel.Driver.Compare
+import XotModel.Driver.Forest
+import XotModel.Driver.IdMap
 
 open XotModel.Driver
 
@@ -15,12 +17,27 @@ def dispatch (st : DState) (line : String) : DState × String :=
   | "entity" :: rest => (st, (handleEntity rest).getD "bad-request")
   | "tree" :: rest => (st, (handleTree rest).getD "bad-request")
   | "cmp" :: rest => (st, (handleCmp st rest).getD "bad-request")
+  | "idmap" :: rest => (handleIdMap st rest).getD (st, "bad-request")
   | _ => (st, "bad-request")
 
-partial def loop (h : IO.FS.Stream) (out : IO.FS.Stream) (st : DState) : IO Unit := do
+structure MState where
+  d : DState := {}
+  forest : FState := {}
+
+def dispatchAll (st : MState) (line : String) : MState × String :=
+  match words line with
+  | "forest" :: rest =>
+    (match handleForest st.forest rest with
+     | some (fs, resp) => ({ st with forest := fs }, resp)
+     | none => (st, "bad-request"))
+  | _ =>
+    let (d, resp) := dispatch st.d line
+    ({ st with d := d }, resp)
+
+partial def loop (h : IO.FS.Stream) (out : IO.FS.Stream) (st : MState) : IO Unit := do
   let line ← h.getLine
   if line.isEmpty then return ()
-  let (st', resp) := dispatch st (line.trimAscii.toString)
+  let (st', resp) := dispatchAll st (line.trimAscii.toString)
   out.putStrLn resp
   loop h out st'
 
